@@ -14,6 +14,7 @@
 #include <sys/types.h>
 #include <sys/wait.h>
 #include <dirent.h>
+#include <sys/resource.h>
 #include <cstdlib>
 #include <cstdio>
 #include <cstring>
@@ -35,7 +36,9 @@ extern char** environ;
 #define CHILD_PATH "./ac"
 
 // ---- per-case data ---------------------------------------------------------------------------
-enum { MAXOPT = 8, MAXSTR = 32, MAXENV = 8 };
+// More op lines than these limits is an error of the case (`?too-many ..` instead of observations), never a silent cut.
+enum { MAXOPT = 16, MAXSTR = 1024, MAXENV = 256 };
+static const char* too_many = 0;         // which limit the case went over
 static Process::Option table[MAXOPT];
 static int ntable = 0;
 static char* strs[MAXSTR];
@@ -70,7 +73,9 @@ static void begin(long, vh::Tok& t)
   for(int i = 0; i < nstrs; ++i) free(strs[i]);
   for(int i = 0; i < nenv; ++i) { free(envk[i]); free(envv[i]); }
   ntable = nstrs = nenv = 0;
-  for(int k = 3; k < t.n && ntable < MAXOPT; ++k) {
+  too_many = 0;
+  for(int k = 3; k < t.n; ++k) {
+    if(ntable >= MAXOPT) { too_many = "option-table-rows"; break; }
     char* a = t.v[k];
     char* b = strchr(a, ':'); if(!b) continue; *b++ = 0;
     char* d = strchr(b, ':'); if(!d) continue; *d++ = 0;
@@ -99,6 +104,7 @@ static void cursor_out(Process::Arguments* a, char** base)
 // parse0  : Arguments(0, empty array)  (the constructor steps past argvEnd)
 static void do_parse(long c, bool argc0)
 {
+  if(too_many) { printf("%ld ?too-many %s\n", c, too_many); return; }
   if(ntable == 0) { printf("%ld ?no-table\n", c); return; }
   // the table and argv arrays are exact-size heap blocks as well
   Process::Option* t = (Process::Option*)malloc(sizeof(Process::Option) * (ntable ? ntable : 1));
@@ -119,7 +125,16 @@ static void do_parse(long c, bool argc0)
   case 5: a = mk<5>(argc, argv, t); break;
   case 6: a = mk<6>(argc, argv, t); break;
   case 7: a = mk<7>(argc, argv, t); break;
-  default: a = mk<8>(argc, argv, t); break;
+  case 8: a = mk<8>(argc, argv, t); break;
+  case 9: a = mk<9>(argc, argv, t); break;
+  case 10: a = mk<10>(argc, argv, t); break;
+  case 11: a = mk<11>(argc, argv, t); break;
+  case 12: a = mk<12>(argc, argv, t); break;
+  case 13: a = mk<13>(argc, argv, t); break;
+  case 14: a = mk<14>(argc, argv, t); break;
+  case 15: a = mk<15>(argc, argv, t); break;
+  case 16: a = mk<16>(argc, argv, t); break;
+  default: printf("%ld ?too-many option-table-rows\n", c); free(argv); free(t); return;   // not reached: begin() refuses longer tables
   }
   int character;
   String argument;
@@ -139,7 +154,7 @@ static void do_parse(long c, bool argc0)
     printf("%ld r %d ", c, character);
     puthexs((const char*)argument, argument.length());
     cursor_out(a, argv);
-    if(++guard > 400) { printf("%ld ! runaway\n", c); break; }
+    if(++guard > 4000) { printf("%ld ! runaway\n", c); break; }
   }
   delete a;
   free(argv);
@@ -149,6 +164,7 @@ static void do_parse(long c, bool argc0)
 // glibc getopt_long on the same table and strings (search oracle only)
 static void do_getopt(long c)
 {
+  if(too_many) { printf("%ld ?too-many %s\n", c, too_many); return; }
   if(ntable == 0) { printf("%ld ?no-table\n", c); return; }
   char optstring[4 * MAXOPT + 3];
   struct option longopts[MAXOPT + 1];
@@ -420,8 +436,19 @@ static void do_launch(long c, vh::Tok& t)
   //          section that only the model predicts - the property text does not name an errno)
   //          | fd0 (descriptor 0 of the parent is closed while the process is opened)
   //          | noexec (the executable does not exist: the child reports on stderr and exits with EXIT_FAILURE)
+  //          | manyfds (the parent has more than FD_SETSIZE descriptors open while the process is opened, read and joined:
+  //            the pipe ends get numbers above 1024)
+  //          | vpause (VIRTUAL silence of the child: before every read(buffer, length, streams) the recorder is told that
+  //            nothing becomes readable for 5 s of virtual time, see args_kernel.h - a reader that waits with a shorter
+  //            time-out gets time-out answers first, without any real waiting; always the multi-stream read);
+  //            vpause:<ms> asks for another length of the silence (the corpus has one of 2000 s)
+  //          | pause (REAL silence: bit 8 of the helper's mode makes it sleep 1.2 s after its header and again after the
+  //            copied payload before it exits; always the multi-stream read)
+  if(too_many) { printf("%ld ?too-many %s\n", c, too_many); return; }
   const char* profile = t.n >= 10 ? t.v[9] : "norm";
   bool p_again = !strcmp(profile, "again"), p_fd0 = !strcmp(profile, "fd0"), p_noexec = !strcmp(profile, "noexec");
+  bool p_manyfds = !strcmp(profile, "manyfds"), p_vpause = !strncmp(profile, "vpause", 6), p_pause = !strcmp(profile, "pause");
+  long vpause_ms = (p_vpause && profile[6] == ':') ? atol(profile + 7) : 5000;
   const char* api = t.v[1]; const char* form = t.v[2];
   unsigned streams = (unsigned)atoi(t.v[3]);
   int code = atoi(t.v[4]), mode = atoi(t.v[5]);
@@ -432,8 +459,25 @@ static void do_launch(long c, vh::Tok& t)
   if(!is_open) streams = 0;
 
   FILE* f = fopen("./ac.ctl", "w");
-  fprintf(f, "%d %d\n", code, mode);
+  fprintf(f, "%d %d\n", code, mode | (p_pause ? 8 : 0));
   fclose(f);
+
+  // manyfds: fill the descriptor table beyond FD_SETSIZE (the soft limit is raised as far as the hard limit allows)
+  enum { MANY = 1100 };
+  static int many[MANY]; int nmany = 0;
+  if(p_manyfds) {
+    struct rlimit rl;
+    if(getrlimit(RLIMIT_NOFILE, &rl) == 0 && rl.rlim_cur < 2048) { rl.rlim_cur = rl.rlim_max < 2048 ? rl.rlim_max : 2048; setrlimit(RLIMIT_NOFILE, &rl); }
+    int nul = ::open("/dev/null", O_RDONLY);
+    while(nmany < MANY) { int d = dup(nul); if(d < 0) break; many[nmany++] = d; }
+    ::close(nul);
+    if(nmany < MANY || many[nmany - 1] < FD_SETSIZE) {      // the configuration cannot be set up here (descriptor limit)
+      for(int i = 0; i < nmany; ++i) ::close(many[i]);
+      printf("%ld L ?descriptor-limit\n", c);
+      free(first);
+      return;
+    }
+  }
 
   unsigned char* payload = (unsigned char*)malloc(size ? size : 1);
   unsigned x = seed * 2654435761u + 12345u;
@@ -456,7 +500,7 @@ static void do_launch(long c, vh::Tok& t)
     fd = ::open("./ac.in", O_RDONLY); dup2(fd, 0); ::close(fd);
   }
 
-  watchdog_arm(4 + (unsigned)(size >> 18));        // 4 s + 4 s per MiB of payload
+  watchdog_arm(4 + (unsigned)(size >> 18) + (p_pause ? 3 : 0));        // 4 s + 4 s per MiB of payload
   Process* p = new Process;
   bool ok = false;
   if(!strcmp(form, "cmd")) {
@@ -494,6 +538,7 @@ static void do_launch(long c, vh::Tok& t)
   if(!ok) {
     if(p_fd0) dup2(save0, 0);
     ::close(save0);
+    for(int i = 0; i < nmany; ++i) ::close(many[i]);
     watchdog_disarm();
     printf("%ld L fail %d\n", c, err);
     delete p; free(payload); free(first);
@@ -508,13 +553,22 @@ static void do_launch(long c, vh::Tok& t)
   unsigned open_streams = streams & (Process::stdoutStream | Process::stderrStream);
   static unsigned char rb[70001];
   size_t rlen = 1 + (seed / 7) % 70000;
-  int readfail = 0;
+  int readfail = 0, spin = 0;
   while(open_streams) {
     uint s = open_streams;
     ssize r;
-    if(open_streams == Process::stdoutStream && (seed & 1)) r = p->read(rb, rlen);
-    else r = p->read(rb, rlen, s);
-    if(r < 0) { if(errno == EINTR) continue; readfail = 1; break; }
+    if(open_streams == Process::stdoutStream && (seed & 1) && !p_vpause && !p_pause) r = p->read(rb, rlen);
+    else {
+      if(p_vpause) vk_pause(vpause_ms);
+      r = p->read(rb, rlen, s);
+      if(p_vpause) { if(vk_spun()) spin = 1; vk_pause(0); }
+    }
+    if(r < 0) {
+      if(errno == EINTR && !spin) continue;
+      readfail = 1;
+      p->close(open_streams);                      // nobody reads any more: a child blocked in write() gets EPIPE and ends
+      break;
+    }
     if(r == 0) { p->close(s); open_streams &= ~s; continue; }
     buf_add(s == Process::stdoutStream ? out : errb, rb, (size_t)r);
   }
@@ -525,6 +579,7 @@ static void do_launch(long c, vh::Tok& t)
   delete p;
   if(p_fd0) dup2(save0, 0);                        // descriptor 0 of the harness is back
   ::close(save0);
+  for(int i = 0; i < nmany; ++i) ::close(many[i]);
   int timed_out = watch_fired;
   watchdog_disarm();
   if(timed_out) {
@@ -563,7 +618,7 @@ static void do_launch(long c, vh::Tok& t)
   }
   printf(" join=%d exit=%u running=%d out=%lu:%s err=%lu:%s io=%s", joined ? 1 : 0, (unsigned)exitCode, running ? 1 : 0,
          (unsigned long)on, out_ok ? "ok" : "bad", (unsigned long)errb.n, err_ok ? "ok" : "bad",
-         (wa.failed || readfail) ? "fail" : "ok");
+         spin ? "spin" : (wa.failed || readfail) ? "fail" : "ok");     // spin: the reader kept asking select/poll with a zero time-out
   if(p_again) printf(" again=%d,%d,%d,%d | errno=%d,%d,%d,%d", again_r[0], again_r[1], again_r[2], again_r[3], again_e[0], again_e[1], again_e[2], again_e[3]);
   printf("\n");
   free(out.d); free(errb.d); free(payload); free(first);
@@ -616,6 +671,7 @@ static int cmp_entry_key(const void* a, const void* b)
 
 static void do_env(long c, vh::Tok& t)
 {
+  if(too_many) { printf("%ld ?too-many %s\n", c, too_many); return; }
   env_install();
   const char* o = t.v[0];
   if(!strcmp(o, "eget") && t.n >= 3) {
@@ -804,9 +860,14 @@ static void do_pobj(long c, vh::Tok& t)
     snprintf(res, sizeof(res), "%s", io_class(r)); ecl = errno_class(r < 0, e);
   } else if(!strcmp(o, "pread2")) {
     uint s = streams;
+    bool vp = has_flag(t, "pause");          // virtual silence of 5 s first (args_kernel.h); the answer must be the same
+    if(vp) vk_pause(5000);
     ssize r = pp->read(buf, sizeof(buf), s);
     int e = errno;
-    if(r >= 0) snprintf(res, sizeof(res), "%s:%u", io_class(r), (unsigned)s); else snprintf(res, sizeof(res), "%s", io_class(r));
+    bool spin = vp && vk_spun();
+    if(vp) vk_pause(0);
+    if(spin) snprintf(res, sizeof(res), "spin");
+    else if(r >= 0) snprintf(res, sizeof(res), "%s:%u", io_class(r), (unsigned)s); else snprintf(res, sizeof(res), "%s", io_class(r));
     ecl = errno_class(r < 0, e);
   } else if(!strcmp(o, "pwrite")) {
     size_t n = t.n >= 2 ? (size_t)atol(t.v[1]) : 1;
@@ -843,9 +904,9 @@ static void end_case(long) { env_reset(); pobj_reset(); }
 static void op(long c, long, vh::Tok& t)
 {
   if(!strcmp(t.v[0], "s") && t.n >= 2) {
-    if(nstrs < MAXSTR) strs[nstrs++] = cstr_exact(t.v[1]);
+    if(nstrs < MAXSTR) strs[nstrs++] = cstr_exact(t.v[1]); else too_many = "argument-strings";
   } else if(!strcmp(t.v[0], "env") && t.n >= 3) {
-    if(nenv < MAXENV) { envk[nenv] = cstr_exact(t.v[1]); envv[nenv] = cstr_exact(t.v[2]); ++nenv; }
+    if(nenv < MAXENV) { envk[nenv] = cstr_exact(t.v[1]); envv[nenv] = cstr_exact(t.v[2]); ++nenv; } else too_many = "environment-entries";
   } else if(!strcmp(t.v[0], "parse")) {
     do_parse(c, false);
   } else if(!strcmp(t.v[0], "parse0")) {
@@ -859,7 +920,7 @@ static void op(long c, long, vh::Tok& t)
   } else if(!strcmp(t.v[0], "rt") && t.n >= 2) {
     do_split(c, t.v[1]);                      // rt <joined> <word>...: the words are for the model/reference side
   } else if(!strcmp(t.v[0], "ev") && t.n >= 2) {
-    if(nevs < MAXEV) evs[nevs++] = cstr_exact(t.v[1]);
+    if(nevs < MAXEV) evs[nevs++] = cstr_exact(t.v[1]); else too_many = "environ-strings";
   } else if(t.v[0][0] == 'e' && (!strcmp(t.v[0], "eget") || !strcmp(t.v[0], "eset") || !strcmp(t.v[0], "evars") || !strcmp(t.v[0], "echild"))) {
     do_env(c, t);
   } else if(t.v[0][0] == 'p' && strcmp(t.v[0], "parse") && strcmp(t.v[0], "parse0")) {
